@@ -359,6 +359,7 @@ type GhostMakeChan struct {
 	Tag   *SExpr
 	Class string
 	NC    bool // never closed
+	Own   bool // closed only by its maker
 }
 
 type ChanClass struct {
@@ -382,6 +383,8 @@ type FuncSpec struct {
 	HasMod    bool
 	MakeChans []GhostMakeChan
 	Pure      bool
+	Once        bool      // closure passed to (*sync.Once).Do (runs at most once; checked syntactically)
+	ReleasedBy  []*Clause // release signals accepted for blocking selects under a teardown lock
 	Escape      []*Clause // channels that must offer a receive alternative at every blocking operation
 	TrustResult string // reason why objinv(result) is assumed for this function
 	Trusted   bool     // contract assumed at call sites but body not verified (must be listed)
@@ -393,6 +396,7 @@ type FuncSpec struct {
 }
 
 type LockSpec struct {
+	Closes   []string // channel classes whose members are closed only under this lock
 	Key      string   // client.RpcMultiplexer.mutex
 	Guards   []string // field names of the same struct that are havoced on Lock (scalars) / maps (contents)
 	Inv      []*Clause
@@ -450,6 +454,13 @@ var labelRe = regexp.MustCompile(`^([a-z_-]+)(?:\[([^\]]*)\])?\s*(.*)$`)
 
 func readSpecs(dir string) (*Specs, error) {
 	sp := &Specs{Funcs: map[string]*FuncSpec{}, Locks: map[string]*LockSpec{}, Fields: map[string]*FieldSpec{}, Chans: map[string]*ChanSpec{}, Classes: map[string]*ChanClass{}, ObjInvs: map[string][]*Clause{}, FieldDefaults: map[string]*FieldSpec{}}
+	// built-in class 1 "ctx.done": the Done channel of a context (prelude: ch_class(ctx_donech c) = 1).
+	// Nothing is ever sent on it, so a receive from it succeeds only once it is closed.
+	if fe, err := parseSpecExpr("false"); err == nil {
+		cc := &ChanClass{Name: "ctx.done", ID: 1, MsgInv: &Clause{Kind: "msginv", Expr: fe, Text: "false", Func: "chanclass ctx.done"}}
+		sp.Classes[cc.Name] = cc
+		sp.ClassList = append(sp.ClassList, cc)
+	}
 	var files []string
 	filepath.Walk(dir, func(path string, info os.FileInfo, err error) error {
 		if err != nil {
@@ -658,6 +669,18 @@ func (sp *Specs) readFile(path string) error {
 				cur.CtxAware.Expr = e
 				cur.CtxAware.Text = rest
 			}
+		case "released_by":
+			// released_by[labels] <chan expr>: a blocking select executed while a teardown lock is held is
+			// acceptable when it has a receive alternative on this channel (a signal that the party which
+			// will wait for the lock fires BEFORE it waits - that half is a separate at-call obligation)
+			if cur == nil {
+				return fail("released_by outside func")
+			}
+			e, err := parseSpecExpr(rest)
+			if err != nil {
+				return fail("%v", err)
+			}
+			cur.ReleasedBy = append(cur.ReleasedBy, &Clause{Kind: "released_by", Labels: labels, File: path, Line: l.n, Func: cur.Key, Expr: e, Text: rest})
 		case "escape":
 			// escape[labels] <chan expr>: every blocking channel operation has a receive alternative on that channel
 			if cur == nil {
@@ -687,6 +710,9 @@ func (sp *Specs) readFile(path string) error {
 			if cur.TrustResult == "" {
 				return fail("trust_result_objinv needs a reason")
 			}
+		case "once":
+			// a closure handed to (*sync.Once).Do: it runs at most once
+			cur.Once = true
 		case "inline":
 			cur.Inline = true
 		case "holds":
@@ -705,6 +731,13 @@ func (sp *Specs) readFile(path string) error {
 			}
 			n, _ := strconv.Atoi(f[0])
 			tagText := strings.TrimSpace(strings.SplitN(rest, " tag ", 2)[1])
+			own := false
+			if strings.HasSuffix(tagText, " own") {
+				// closed only by the function that makes it (and its in-place closures): its closedness is
+				// stable for this activation (the locations it is stored in must forbid closing: owner_closed -)
+				own = true
+				tagText = strings.TrimSpace(strings.TrimSuffix(tagText, " own"))
+			}
 			nc := false
 			if strings.HasSuffix(tagText, " nc") {
 				// this channel is never closed by anyone (proved at every close site)
@@ -720,7 +753,7 @@ func (sp *Specs) readFile(path string) error {
 			if err != nil {
 				return fail("%v", err)
 			}
-			cur.MakeChans = append(cur.MakeChans, GhostMakeChan{n, e, class, nc})
+			cur.MakeChans = append(cur.MakeChans, GhostMakeChan{n, e, class, nc, own})
 		case "lock":
 			// lock <Type.field> [teardown] guards a, b
 			f := strings.Fields(rest)
@@ -735,7 +768,14 @@ func (sp *Specs) readFile(path string) error {
 				case "teardown":
 					curLock.Teardown = true
 				case "guards":
-					for _, g := range f[i+1:] {
+					for j, g := range f[i+1:] {
+						if g == "closes" {
+							// ... closes <class>, ...: channels of these classes are closed only while the lock is held
+							for _, c := range f[i+1+j+1:] {
+								curLock.Closes = append(curLock.Closes, strings.Trim(c, ","))
+							}
+							break
+						}
 						curLock.Guards = append(curLock.Guards, strings.Trim(g, ","))
 					}
 					i = len(f)
